@@ -8,7 +8,8 @@
 //!
 //! Commands (NDJSON, `--cmds file`), events (NDJSON, `--out file`):
 //!   {"op":"caps"}                                          -> ev "caps"  existence matrices
-//!   {"op":"group","fam":F,"from":A,"to":[B..],"lanes":[class..]}  inputs built per class (see `make_input`)
+//!   {"op":"group","fam":F,"from":A,"to":[B..],"lanes":[class..],"pick":k}  inputs built per class (see `make_input`);
+//!        "to" absent: every existing target; "pick": k of them chosen by the seeded generator
 //!   {"op":"lanes","from":A,"to":[B..],"vt":[..],"in":[[hex f64 x3]..]}   explicit inputs (replay)
 //!   {"op":"random","from":A,"to":[B..],"groups":k}         seeded random in-gamut colours
 //!        -> ev "lane"  one per lane and (target, vector type)
@@ -510,6 +511,14 @@ impl<'a> Gen<'a> {
         }
     }
 }
+/// `k` of the targets (all when k = 0), chosen by the seeded generator
+fn sample_targets(rng: &mut Sm64, tos: &[usize], k: usize) -> Vec<usize> {
+    if k == 0 || k >= tos.len() { return tos.to_vec(); }
+    let mut v = tos.to_vec();
+    for i in 0..k { let j = i + rng.below((v.len() - i) as u64) as usize; v.swap(i, j); }
+    v.truncate(k);
+    v
+}
 fn bad_class<R>(fam: &str, cls: &str) -> R {
     eprintln!("unknown class {} of family {}", cls, fam);
     std::process::exit(3)
@@ -882,12 +891,13 @@ fn op_caps() -> Value {
 
 impl<'a> Drv<'a> {
     /// every operator available for `node` on every vector type, `reps` groups of inputs each
-    fn ops(&mut self, g: &mut Gen, node: usize, reps: u64, only: &[String], explicit: Option<(&[Col], &[Col], &[f64], &[f64], &str)>) {
+    fn ops(&mut self, g: &mut Gen, node: usize, reps: u64, only: &[String], vtf: &[String], explicit: Option<(&[Col], &[Col], &[f64], &[f64], &str)>) {
         let tables = op_tables();
         let vts = [("f32x4", 4usize, "f32"), ("f32x8", 8, "f32"), ("f64x2", 2, "f64"), ("f64x4", 4, "f64")];
         let nn = ncomp(node);
         for (vi, (vt, n, t)) in vts.iter().enumerate() {
             if let Some((a, _, _, _, evt)) = explicit { if a.len() != *n || evt != *vt { continue; } }
+            if !vtf.is_empty() && !vtf.iter().any(|v| v == vt) { continue; }
             for (gi, (grp, methods)) in OP_GROUPS.iter().enumerate() {
                 let f = match tables[vi][node][gi] { Some(f) => f, None => continue };
                 for which in methods.iter() {
@@ -1088,7 +1098,8 @@ fn main() {
                 let fam = c["fam"].as_str().unwrap();
                 let classes = strs(&c["lanes"]);
                 let ins: Vec<Col> = classes.iter().map(|cl| g.make_input(fam, cl, from)).collect();
-                d.lanes(fam, &classes, from, &tos(&c, from), &strs(&c["vt"]), &ins);
+                let t = sample_targets(&mut g.rng, &tos(&c, from), c["pick"].as_u64().unwrap_or(0) as usize);
+                d.lanes(fam, &classes, from, &t, &strs(&c["vt"]), &ins);
             }
             "lanes" => {
                 let from = idx(c["from"].as_str().unwrap());
@@ -1104,7 +1115,8 @@ fn main() {
                 for _ in 0..c["groups"].as_u64().unwrap_or(1) {
                     for n in [2usize, 4, 8] {
                         let ins: Vec<Col> = (0..n).map(|_| g.random_in(from)).collect();
-                        d.lanes("random", &[], from, &tos(&c, from), &strs(&c["vt"]), &ins);
+                        let t = sample_targets(&mut g.rng, &tos(&c, from), c["pick"].as_u64().unwrap_or(0) as usize);
+                        d.lanes("random", &[], from, &t, &strs(&c["vt"]), &ins);
                     }
                 }
             }
@@ -1125,9 +1137,10 @@ fn main() {
                     let cols = |v: &Value| -> Vec<Col> { v.as_array().unwrap().iter().map(|l| { let mut o = [0.0; 3]; for (k, s) in l.as_array().unwrap().iter().enumerate() { o[k] = hexf(s.as_str().unwrap()); } o }).collect() };
                     let nums = |v: &Value| -> Vec<f64> { v.as_array().unwrap().iter().map(|s| hexf(s.as_str().unwrap())).collect() };
                     let (a, b, f, gg) = (cols(a), cols(&c["b"]), nums(&c["f"]), nums(&c["g"]));
-                    d.ops(&mut g, nodes[0], 1, &only, Some((&a, &b, &f, &gg, c["vt"].as_str().unwrap())));
+                    d.ops(&mut g, nodes[0], 1, &only, &[], Some((&a, &b, &f, &gg, c["vt"].as_str().unwrap())));
                 } else {
-                    for node in nodes { d.ops(&mut g, node, c["count"].as_u64().unwrap_or(1), &only, None); }
+                    let vtf = strs(&c["vts"]);
+                    for node in nodes { d.ops(&mut g, node, c["count"].as_u64().unwrap_or(1), &only, &vtf, None); }
                 }
             }
             "num" => {
@@ -1144,16 +1157,26 @@ fn main() {
                 let all: Vec<usize> = (0..19).collect();
                 let l = strs(&c["to"]);
                 let tos: Vec<usize> = if l.is_empty() { all } else { l.iter().map(|s| idx(s)).collect() };
-                if fam == "random" {
+                if let Some(inp) = c.get("in") {
+                    // explicit input (replay)
+                    let mut o = [0.0; 3];
+                    for (k, s) in inp.as_array().unwrap().iter().enumerate() { o[k] = hexf(s.as_str().unwrap()); }
+                    d.prec("explicit", "", from, &tos, &o);
+                } else if fam == "random" {
                     for _ in 0..c["count"].as_u64().unwrap_or(1) {
                         // stay off the blue edge of the gamut (r = g = 0), where f32 Okhsl/Okhsv/Okhwb are a known finding of C15
                         let mut rgb = g.srgb_any();
                         while rgb[0].max(rgb[1]) < 0.02 * rgb[2] { rgb = g.srgb_any(); }
                         let input = g.from_srgb(from, rgb);
-                        d.prec("random", "", from, &tos, &input);
+                        let sub = sample_targets(&mut g.rng, &tos, c["pick"].as_u64().unwrap_or(0) as usize);
+                        d.prec("random", "", from, &sub, &input);
                     }
                 } else {
-                    for cl in strs(&c["lanes"]) { let input = g.make_input(fam, &cl, from); d.prec(fam, &cl, from, &tos, &input); }
+                    for cl in strs(&c["lanes"]) {
+                        let input = g.make_input(fam, &cl, from);
+                        let sub = sample_targets(&mut g.rng, &tos, c["pick"].as_u64().unwrap_or(0) as usize);
+                        d.prec(fam, &cl, from, &sub, &input);
+                    }
                 }
             }
             other => { eprintln!("unknown op {}", other); std::process::exit(3) }
